@@ -613,7 +613,10 @@ fn cmd_replay(a: &Args) {
                     } else {
                         more.push(rec);
                     }
-                    if m.class != "unreal" {
+                    // a data-state price other than the one DefaultInstrumentMarketData must yield does not
+                    // end the scenario either: with a position open it means the position is marked at an
+                    // older price (C15), and the later steps show whether that persists
+                    if m.class != "unreal" && m.class != "price" {
                         break;
                     }
                     in_sync = false;
